@@ -9,7 +9,6 @@ import (
 	"math/rand"
 	"reflect"
 	"strings"
-	"sync/atomic"
 	"testing"
 	"time"
 
@@ -90,7 +89,7 @@ func guardedCall(svc jsonrpc2.Service, method string, params ...interface{}) (ou
 	out.Err = svc.Call(ctx, &raw, method, params...)
 	out.Raw = raw
 	if out.Err != nil && ctx.Err() == context.DeadlineExceeded {
-		atomic.AddInt64(&vlib.WatchdogFired, 1)
+		vlib.NoteWatchdog(method)
 		out.Err = vlib.ErrWatchdog
 	}
 	if out.Err != nil && strings.Contains(out.Err.Error(), "failed to verify signature") {
